@@ -19,8 +19,8 @@ Definition anon_named (o : obj) : bool := match ob_name o with Anon _ => true | 
 Fixpoint unit_anons (a : nat) (ds : list decl) : list obj :=
   match ds with
   | [] => []
-  | DFun _ _ _ fsz (Some items) :: r =>
-      let l := anon_obj_of a false true fsz 1 true :: anon_obj_of (S a) false true fsz 1 true :: body_anons (S (S a)) items in
+  | DFun n _ _ fsz (Some items) :: r =>
+      let l := anon_obj_of a false true fsz 1 true None :: anon_obj_of (S a) false true fsz 1 true None :: body_anons n (S (S a)) items in
       l ++ unit_anons (a + length l) r
   | _ :: r => unit_anons a r
   end.
@@ -30,12 +30,12 @@ Proof.
   revert a. induction p as [|d r IH]; intros a; [cbn; rewrite Nat.add_0_r; reflexivity|].
   change ((d :: r) ++ q) with (d :: (r ++ q)).
   destruct d as [n od|n sc il fsz [items|]]; cbn [unit_anons]; try (apply IH).
-  cbv zeta. remember (anon_obj_of a false true fsz 1 true :: anon_obj_of (S a) false true fsz 1 true :: body_anons (S (S a)) items) as l eqn:El.
+  cbv zeta. remember (anon_obj_of a false true fsz 1 true None :: anon_obj_of (S a) false true fsz 1 true None :: body_anons n (S (S a)) items) as l eqn:El.
   rewrite IH, app_length, <- app_assoc, Nat.add_assoc. reflexivity.
 Qed.
 
 (* names are positions *)
-Lemma body_anons_names a items : forall j x, nth_error (body_anons a items) j = Some x -> ob_name x = Anon (a + j).
+Lemma body_anons_names fn a items : forall j x, nth_error (body_anons fn a items) j = Some x -> ob_name x = Anon (a + j).
 Proof.
   revert a. induction items as [|i r IH]; intros a j x H; [destruct j; discriminate|].
   destruct i; cbn [body_anons] in H; [eapply IH; exact H| |];
@@ -45,7 +45,7 @@ Lemma unit_anons_names ds : forall a j x, nth_error (unit_anons a ds) j = Some x
 Proof.
   induction ds as [|d r IH]; intros a j x H; [destruct j; discriminate|].
   destruct d as [n od|n sc il fsz [items|]]; cbn [unit_anons] in H; try (eapply IH; exact H).
-  set (l := anon_obj_of a false true fsz 1 true :: anon_obj_of (S a) false true fsz 1 true :: body_anons (S (S a)) items) in *.
+  set (l := anon_obj_of a false true fsz 1 true None :: anon_obj_of (S a) false true fsz 1 true None :: body_anons n (S (S a)) items) in *.
   destruct (Nat.lt_ge_cases j (length l)) as [Hlt|Hge].
   - rewrite nth_error_app1 in H by exact Hlt. unfold l in H. destruct j as [|[|j]]; [cbn in H; injection H as <-; cbn; f_equal; lia|cbn in H; injection H as <-; cbn; f_equal; lia|].
     cbn in H. apply body_anons_names in H. rewrite H. f_equal. lia.
@@ -85,18 +85,18 @@ Proof.
   unfold anon_named. destruct (K z) as (-> & _). unfold is_fun_named in E. apply andb_true_iff in E as [_ E]. destruct (ob_name z); [reflexivity|discriminate].
 Qed.
 
-Lemma parse_body_anons sc items : forall anon gs refs body,
-  fst (fst (fst (parse_body sc items anon gs refs body))) = rev (body_anons anon items) ++ gs
-  /\ snd (fst (fst (parse_body sc items anon gs refs body))) = (anon + length (body_anons anon items))%nat.
+Lemma parse_body_anons sc fn items : forall anon gs refs body,
+  fst (fst (fst (parse_body sc fn items anon gs refs body))) = rev (body_anons fn anon items) ++ gs
+  /\ snd (fst (fst (parse_body sc fn items anon gs refs body))) = (anon + length (body_anons fn anon items))%nat.
 Proof.
   induction items as [|i r IH]; intros anon gs refs body; [cbn; split; [reflexivity|lia]|].
   destruct i as [m|tl sz al arr hi|sz]; cbn [parse_body body_anons].
   - destruct (resolve sc m) as [[[|] t]|]; apply IH.
-  - destruct (IH (S anon) (anon_obj_of anon tl hi sz al arr :: gs) refs (body ++ [RAnon anon tl])) as [E1 E2]. rewrite E1, E2. cbn [rev length]. rewrite <- app_assoc. split; [reflexivity|lia].
-  - destruct (IH (S anon) (anon_obj_of anon false true sz 1 true :: gs) refs (body ++ [RAnon anon false])) as [E1 E2]. rewrite E1, E2. cbn [rev length]. rewrite <- app_assoc. split; [reflexivity|lia].
+  - destruct (IH (S anon) (anon_obj_of anon tl hi sz al arr (Some fn) :: gs) refs (body ++ [RAnon anon tl])) as [E1 E2]. rewrite E1, E2. cbn [rev length]. rewrite <- app_assoc. split; [reflexivity|lia].
+  - destruct (IH (S anon) (anon_obj_of anon false true sz 1 true None :: gs) refs (body ++ [RAnon anon false])) as [E1 E2]. rewrite E1, E2. cbn [rev length]. rewrite <- app_assoc. split; [reflexivity|lia].
 Qed.
 
-Lemma body_anons_all_anon a items x : In x (body_anons a items) -> anon_named x = true /\ ob_function x = false.
+Lemma body_anons_all_anon fn a items x : In x (body_anons fn a items) -> anon_named x = true /\ ob_function x = false.
 Proof.
   revert a. induction items as [|i r IH]; intros a Hx; [contradiction|].
   destruct i; cbn [body_anons] in Hx; [eapply IH; exact Hx| |]; (destruct Hx as [<-|Hx]; [split; reflexivity|eapply IH; exact Hx]).
@@ -127,16 +127,16 @@ Proof.
     destruct S1 as [S1 S2]. destruct body as [items|].
     + cbn [unit_anons] in U. cbv zeta in U. rewrite app_nil_r in U. rewrite <- A2 in U.
       set (a := ps_anon st) in *.
-      set (gs2 := anon_obj_of (S a) false true fsz 1 true :: anon_obj_of a false true fsz 1 true :: fst (stage1 st n sc il hb)).
-      destruct (parse_body_anons (snd (stage1 st n sc il hb)) items (S (S a)) gs2 [] []) as [E1 E2].
+      set (gs2 := anon_obj_of (S a) false true fsz 1 true None :: anon_obj_of a false true fsz 1 true None :: fst (stage1 st n sc il hb)).
+      destruct (parse_body_anons (snd (stage1 st n sc il hb)) n items (S (S a)) gs2 [] []) as [E1 E2].
       constructor; cbn [ps_globals ps_anon]; rewrite ?U.
       * rewrite anon_update by apply keeps_set_body. rewrite E1, filter_app.
-        rewrite (filter_all anon_named (rev _)) by (intros y Hy; apply in_rev in Hy; apply (body_anons_all_anon _ _ _ Hy)).
+        rewrite (filter_all anon_named (rev _)) by (intros y Hy; apply in_rev in Hy; apply (body_anons_all_anon _ _ _ _ Hy)).
         unfold gs2. cbn [filter anon_named anon_obj_of ob_name]. rewrite S1, A1.
         rewrite rev_app_distr. cbn [rev]. rewrite <- !app_assoc. reflexivity.
       * rewrite E2, app_length. cbn [length]. unfold a. lia.
       * apply fun_update; [apply keeps_set_body|]. rewrite E1. intros y Hy Hf. apply in_app_or in Hy as [Hy|Hy].
-        -- apply in_rev in Hy. destruct (body_anons_all_anon _ _ _ Hy) as [_ H]. congruence.
+        -- apply in_rev in Hy. destruct (body_anons_all_anon _ _ _ _ Hy) as [_ H]. congruence.
         -- destruct Hy as [<-|[<-|Hy]]; [discriminate|discriminate|apply S2; assumption].
     + cbn [unit_anons] in U. rewrite app_nil_r in U. constructor; cbn [ps_globals ps_anon]; rewrite ?U; [rewrite S1; exact A1|exact A2|exact S2].
 Qed.
@@ -149,31 +149,39 @@ Proof.
   apply (H ds [] (mkPS [] [] 0 None)). constructor; [reflexivity|reflexivity|intros x []].
 Qed.
 
-Lemma body_anons_shape a items x : In x (body_anons a items) -> exists k tl hi sz al arr, x = anon_obj_of k tl hi sz al arr.
+Lemma body_anons_shape fn a items x : In x (body_anons fn a items) -> exists k tl hi sz al arr ow, x = anon_obj_of k tl hi sz al arr ow /\ (forall g, ow = Some g -> g = fn).
 Proof.
   revert a. induction items as [|i r IH]; intros a Hx; [contradiction|].
-  destruct i; cbn [body_anons] in Hx; [eapply IH; exact Hx| |]; (destruct Hx as [<-|Hx]; [do 6 eexists; reflexivity|eapply IH; exact Hx]).
+  destruct i; cbn [body_anons] in Hx; [eapply IH; exact Hx| |]; (destruct Hx as [<-|Hx]; [do 7 eexists; split; [reflexivity|intros g E; congruence]|eapply IH; exact Hx]).
 Qed.
-Lemma unit_anons_shape ds : forall a x, In x (unit_anons a ds) -> exists k tl hi sz al arr, x = anon_obj_of k tl hi sz al arr.
+Lemma unit_anons_shape ds : forall a x, In x (unit_anons a ds) ->
+  exists k tl hi sz al arr ow, x = anon_obj_of k tl hi sz al arr ow /\ (forall g, ow = Some g -> funseq g ds <> []).
 Proof.
   induction ds as [|d r IH]; intros a x Hx; [contradiction|].
-  destruct d as [n od|n sc il fsz [items|]]; cbn [unit_anons] in Hx; try (eapply IH; exact Hx).
-  cbv zeta in Hx. apply in_app_or in Hx as [Hx|Hx]; [|eapply IH; exact Hx].
-  destruct Hx as [<-|[<-|Hx]]; [do 6 eexists; reflexivity|do 6 eexists; reflexivity|eapply body_anons_shape; exact Hx].
+  assert (Hmono : forall g, funseq g r <> [] -> funseq g (d :: r) <> []).
+  { intros g H. destruct d as [m od|m ? ? ? ?]; cbn [funseq]; [exact H|]. destruct (Nat.eqb m g); [discriminate|exact H]. }
+  assert (Htail : forall a', In x (unit_anons a' r) -> exists k tl hi sz al arr ow, x = anon_obj_of k tl hi sz al arr ow /\ (forall g, ow = Some g -> funseq g (d :: r) <> [])).
+  { intros a' H. destruct (IH a' x H) as (k & tl & hi & sz & al & arr & ow & E & Ho). exists k, tl, hi, sz, al, arr, ow. split; [exact E|]. intros g Hg. apply Hmono. apply Ho. exact Hg. }
+  destruct d as [n od|n sc il fsz [items|]]; cbn [unit_anons] in Hx; try (eapply Htail; exact Hx).
+  cbv zeta in Hx. apply in_app_or in Hx as [Hx|Hx]; [|eapply Htail; exact Hx].
+  destruct Hx as [<-|[<-|Hx]]; [do 7 eexists; split; [reflexivity|intros g E; discriminate]|do 7 eexists; split; [reflexivity|intros g E; discriminate]|].
+  destruct (body_anons_shape _ _ _ _ Hx) as (k & tl & hi & sz & al & arr & ow & E & Ho). exists k, tl, hi, sz, al, arr, ow. split; [exact E|].
+  intros g Hg. rewrite (Ho g Hg). cbn [funseq]. rewrite Nat.eqb_refl. discriminate.
 Qed.
 
 Definition anon_entry (x : obj) : anon_obj := mkAnon (data_place x) (ob_size x) (eff_align x).
 
-Lemma anon_entries_spec ds : forall a, map anon_entry (unit_anons a ds) = spec_anon ds.
+Definition placed (live : nat -> bool) (x : obj) : bool := match ob_owner x with Some g => live g | None => true end.
+Lemma anon_entries_spec live ds : forall a, map anon_entry (filter (placed live) (unit_anons a ds)) = spec_anon live ds.
 Proof.
   induction ds as [|d r IH]; intros a; [reflexivity|].
   unfold spec_anon in *. cbn [flat_map]. destruct d as [n od|n sc il fsz [items|]]; cbn [unit_anons]; try (apply IH).
-  cbv zeta. rewrite map_app, IH. f_equal. cbn [map]. apply f_equal2; [reflexivity|]. apply f_equal2; [reflexivity|].
+  cbv zeta. rewrite filter_app, map_app, IH. f_equal. cbn [filter placed anon_obj_of ob_owner map]. apply f_equal2; [reflexivity|]. apply f_equal2; [reflexivity|].
   generalize (S (S a)). induction items as [|i items IHi]; intros b; [reflexivity|].
-  destruct i as [m|tl sz al arr hi|sz]; cbn [body_anons flat_map anon_of_item app map].
+  destruct i as [m|tl sz al arr hi|sz]; cbn [body_anons flat_map anon_of_item app map filter placed anon_obj_of ob_owner].
   - apply IHi.
-  - rewrite IHi. f_equal. unfold anon_entry, data_place. cbn. destruct tl, hi; reflexivity.
-  - rewrite IHi. reflexivity.
+  - destruct (live n); [|apply IHi]. cbn [map app]. rewrite IHi. f_equal. unfold anon_entry, data_place. cbn. destruct tl, hi; reflexivity.
+  - cbn [map app]. rewrite IHi. reflexivity.
 Qed.
 
 Lemma flat_map_flat_map {A B C} (f : B -> list C) (g : A -> list B) l : flat_map f (flat_map g l) = flat_map (fun x => flat_map f (g x)) l.
@@ -190,7 +198,7 @@ Proof. induction l as [|x r IH]; [reflexivity|]. cbn [rev filter]. rewrite filte
 
 Lemma core_emit s o prog :
   core s (asm P_text None (emit o prog)) =
-  flat_map (fun x => if same_name s x then data_core (fcommon o) x else []) prog ++ flat_map (fun x => if same_name s x then text_core x else []) prog.
+  flat_map (fun x => if same_name s x then data_core (fcommon o) prog x else []) prog ++ flat_map (fun x => if same_name s x then text_core x else []) prog.
 Proof.
   rewrite asm_emit, core_app, !core_flat_map. f_equal; apply flat_map_ext; intros x; [apply core_data_ev|apply core_text_ev].
 Qed.
@@ -210,17 +218,17 @@ Proof.
   - intros x Hx. unfold mark_one. unfold anon_named in Hx. destruct (ob_name x); [discriminate|reflexivity].
   - intros x. unfold anon_named. destruct (mark_one_keeps Gs x) as (-> & _). reflexivity.
 Qed.
-Lemma anon_shape x : In x M -> anon_named x = true -> exists k tl hi sz al arr, x = anon_obj_of k tl hi sz al arr.
+Lemma anon_shape x : In x M -> anon_named x = true -> exists k tl hi sz al arr ow, x = anon_obj_of k tl hi sz al arr ow.
 Proof.
   intros Hx Ha. assert (H : In x (filter anon_named M)) by (apply filter_In; split; assumption).
-  rewrite anon_M in H. apply in_rev in H. eapply unit_anons_shape. exact H.
+  rewrite anon_M in H. apply in_rev in H. destruct (unit_anons_shape ds 0 x H) as (k & tl & hi & sz & al & arr & ow & E & _). exists k, tl, hi, sz, al, arr, ow. exact E.
 Qed.
 Lemma anon_prog : filter anon_named prog = rev U.
 Proof.
   rewrite <- anon_M. unfold prog, parse_flags. fold Gs. fold M.
   rewrite (filter_filter_sub anon_named nt (scan_globals M)), (filter_filter_sub anon_named nt M), real_definitions_kept; [reflexivity| |].
-  - intros x Hx Ha. destruct (anon_shape x Hx Ha) as (k & tl & hi & sz & al & arr & ->). reflexivity.
-  - intros x Hx Ha. destruct (anon_shape x (scan_globals_In M x Hx) Ha) as (k & tl & hi & sz & al & arr & ->). reflexivity.
+  - intros x Hx Ha. destruct (anon_shape x Hx Ha) as (k & tl & hi & sz & al & arr & ow & ->). reflexivity.
+  - intros x Hx Ha. destruct (anon_shape x (scan_globals_In M x Hx) Ha) as (k & tl & hi & sz & al & arr & ow & ->). reflexivity.
 Qed.
 Lemma fun_user x : In x prog -> ob_function x = true -> anon_named x = false.
 Proof.
@@ -237,16 +245,16 @@ Proof.
   - intros x _ Hn. unfold same_name in Hn. unfold anon_named. destruct (ob_name x); [discriminate|reflexivity].
 Qed.
 
-Lemma size_of_label k x : nth_error U k = Some x -> ev_size (Anon k) evs = Some (ob_size x).
+Lemma size_of_label k x : nth_error U k = Some x -> owner_live prog x = true -> ev_size (Anon k) evs = Some (ob_size x).
 Proof.
-  intros Hk. rewrite <- ev_size_core. unfold evs. rewrite core_emit.
+  intros Hk Hol. rewrite <- ev_size_core. unfold evs. rewrite core_emit.
   assert (Hname : ob_name x = Anon k) by (rewrite (unit_anons_names ds 0 k x Hk); reflexivity).
-  destruct (unit_anons_shape ds 0 x (nth_error_In _ _ Hk)) as (k' & tl & hi & sz & al & arr & ->). cbn in Hname. injection Hname as ->.
+  destruct (unit_anons_shape ds 0 x (nth_error_In _ _ Hk)) as (k' & tl & hi & sz & al & arr & ow & -> & _). cbn in Hname. injection Hname as ->.
   rewrite (flat_map_filter _ (same_name (Anon k)) prog) by (intros y _ Hy; rewrite Hy; reflexivity).
   rewrite named_anon, Hk. cbn [flat_map]. rewrite app_nil_r.
   rewrite (flat_map_nil (fun y => if same_name (Anon k) y then text_core y else []) prog).
   - unfold same_name. cbn [anon_obj_of ob_name ident_eqb]. rewrite Nat.eqb_refl.
-    unfold data_core, emits_data. cbn [anon_obj_of ob_function ob_definition ob_tentative ob_static ob_tls ob_name ob_size negb andb].
+    unfold data_core, emits_data. rewrite Hol. cbn [anon_obj_of ob_function ob_definition ob_tentative ob_static ob_tls ob_name ob_size negb andb].
     rewrite andb_false_r. unfold ev_size. cbn. rewrite Nat.eqb_refl. reflexivity.
   - intros y Hy. destruct (same_name (Anon k) y) eqn:Hn; [|reflexivity]. unfold text_core, emits_text.
     destruct (ob_function y) eqn:Hf; [|reflexivity]. pose proof (fun_user y Hy Hf) as Hu. unfold same_name in Hn. unfold anon_named in Hu.
@@ -265,15 +273,16 @@ Proof.
   cbn [flat_map]. rewrite (IH Hr). destruct e; try discriminate. reflexivity.
 Qed.
 
-Lemma phi_data x : In x prog -> flat_map phi (data_ev (fcommon o) x) =
-  if anon_named x then [mkAnon (data_place x) (match ev_size (ob_name x) evs with Some z => z | None => 0%Z end) (eff_align x)] else [].
+Lemma phi_data x : In x prog -> flat_map phi (data_ev (fcommon o) prog x) =
+  if anon_named x && owner_live prog x then [mkAnon (data_place x) (match ev_size (ob_name x) evs with Some z => z | None => 0%Z end) (eff_align x)] else [].
 Proof.
-  intros Hx. destruct (anon_named x) eqn:Ha.
-  - destruct (anon_shape x (scan_globals_In _ x Hx) Ha) as (k & tl & hi & sz & al & arr & ->).
-    unfold data_ev, emit_data_obj, data_place. cbn [anon_obj_of ob_function ob_definition ob_tentative ob_static ob_tls ob_init ob_rel ob_name ob_size negb andb orb].
+  intros Hx. unfold data_ev. rewrite emit_data_obj_alt. destruct (anon_named x) eqn:Ha; cbn [andb].
+  - destruct (anon_shape x (scan_globals_In _ x Hx) Ha) as (k & tl & hi & sz & al & arr & ow & ->).
+    unfold emits_data. destruct (owner_live prog (anon_obj_of k tl hi sz al arr ow)); [|reflexivity].
+    unfold data_place. cbn [anon_obj_of ob_function ob_definition ob_tentative ob_static ob_tls ob_init ob_rel ob_name ob_size negb andb orb].
     rewrite andb_false_r. destruct hi; reflexivity.
-  - unfold data_ev, emit_data_obj. unfold anon_named in Ha. destruct (ob_name x) as [m|] eqn:En; [|discriminate].
-    destruct (ob_function x || negb (ob_definition x)); [reflexivity|].
+  - unfold anon_named in Ha. destruct (ob_name x) as [m|] eqn:En; [|discriminate].
+    destruct (emits_data prog x); [|reflexivity].
     destruct (ob_static x), (fcommon o && ob_tentative x && negb (ob_tls x)), (ob_init x), (ob_tls x), (ob_rel x); reflexivity.
 Qed.
 Lemma phi_text x : In x prog -> flat_map phi (text_ev (fpic o) prog x) = [].
@@ -284,7 +293,7 @@ Proof.
   cbn [flat_map phi app]. apply phi_refs. apply code_events_refs.
 Qed.
 
-Theorem anon_placements_model : anon_placements (emit o prog) = map anon_entry U.
+Theorem anon_placements_model : anon_placements (emit o prog) = map anon_entry (filter (owner_live prog) U).
 Proof.
   unfold anon_placements. fold evs. change (fun e => match e with
       | EDef (Anon k) p al => [mkAnon p (match ev_size (Anon k) evs with Some z => z | None => 0%Z end) (match al with Some a => a | None => 1%Z end)]
@@ -292,18 +301,16 @@ Proof.
   unfold evs at 1. rewrite asm_emit, flat_map_app, !flat_map_flat_map.
   rewrite (flat_map_nil (fun x => flat_map phi (text_ev (fpic o) prog x)) prog) by (intros x Hx; apply phi_text; exact Hx).
   rewrite app_nil_r.
-  rewrite (flat_map_ext_in _ (fun x => if anon_named x then [mkAnon (data_place x) (match ev_size (ob_name x) evs with Some z => z | None => 0%Z end) (eff_align x)] else []) prog)
+  rewrite (flat_map_ext_in _ (fun x => if anon_named x && owner_live prog x then [mkAnon (data_place x) (match ev_size (ob_name x) evs with Some z => z | None => 0%Z end) (eff_align x)] else []) prog)
     by (intros x Hx; apply phi_data; exact Hx).
   rewrite (flat_map_filter _ anon_named prog) by (intros x _ Hx; rewrite Hx; reflexivity).
   rewrite anon_prog.
-  rewrite (flat_map_ext_in _ (fun x => [anon_entry x]) (rev U)).
-  - rewrite flat_map_singleton, map_rev, rev_involutive. reflexivity.
+  rewrite (flat_map_ext_in _ (fun x => if owner_live prog x then [anon_entry x] else []) (rev U)).
+  - rewrite <- (rev_involutive (filter (owner_live prog) U)), <- filter_rev, map_rev. generalize (rev U). intros l. rewrite <- (rev_involutive (flat_map _ l)). f_equal.
+    induction l as [|y r IH]; [reflexivity|]. cbn [flat_map filter]. destruct (owner_live prog y); cbn [map rev app]; rewrite ?rev_app_distr; cbn [rev app]; rewrite <- IH; reflexivity.
   - intros x Hx. apply in_rev in Hx. apply In_nth_error in Hx as (k & Hk).
     assert (Hn : ob_name x = Anon k) by (rewrite (unit_anons_names ds 0 k x Hk); reflexivity).
-    destruct (unit_anons_shape ds 0 x (nth_error_In _ _ Hk)) as (k' & tl & hi & sz & al & arr & E). subst x. cbn [anon_named anon_obj_of ob_name] in *.
-    injection Hn as ->. rewrite (size_of_label k _ Hk). reflexivity.
+    assert (Ha : anon_named x = true) by (unfold anon_named; rewrite Hn; reflexivity). rewrite Ha. cbn [andb].
+    destruct (owner_live prog x) eqn:Hol; [|reflexivity]. rewrite Hn, (size_of_label k x Hk Hol). reflexivity.
 Qed.
-
-Theorem anon_placements_correct : anon_placements (emit o (parse_flags ds)) = spec_anon ds.
-Proof. etransitivity; [apply anon_placements_model|apply anon_entries_spec]. Qed.
 End Anon.
